@@ -19,7 +19,7 @@ CHECK_DEADLOCK FALSE
 OWNER = {"C01": "C01", "C02": "C02", "C03": "C03", "C04": "C04", "C14": "C14", "C17": "C17", "C18": "C18"}
 
 PROPS = {
-    "C01": dict(modes={"quick": [("path", "quick")], "thorough": [("path", "thorough"), ("headers", "quick")]},
+    "C01": dict(modes={"quick": [("path", "quick"), ("regexpos", "quick")], "thorough": [("path", "thorough"), ("headers", "quick"), ("regexpos", "quick")]},
                 plan=dict(perms=0, slash=False, entries=["D", "S"], conc=8),
                 random={"quick": [("mixed", 350, 24), ("headers", 150, 30)],
                         "thorough": [("mixed", 4000, 30), ("headers", 1500, 40)]},
@@ -29,9 +29,9 @@ PROPS = {
                      "requests mutated from matching ones; each is sent through Dispatch and ServeHTTP of real "
                      "containers under both routers, and all requests of a table once more from 8 goroutines at once. Non-trivial = distinct (table, request, outcome) in which a "
                      "route function ran (the property's antecedent)."),
-    "C02": dict(modes={"quick": [("headers", "quick"), ("roots", "quick")],
-                       "thorough": [("headers", "thorough"), ("roots", "thorough"), ("path", "quick")]},
-                plan=dict(perms=0, slash=False, entries=["D", "S"]),
+    "C02": dict(modes={"quick": [("headers", "quick"), ("roots", "quick"), ("regexpos", "quick")],
+                       "thorough": [("headers", "thorough"), ("roots", "thorough"), ("path", "quick"), ("regexpos", "quick")]},
+                plan=dict(perms=0, slash=False, entries=["D", "S"], conc=8),
                 random={"quick": [("headers", 250, 30), ("mixed", 250, 24)],
                         "thorough": [("headers", 3000, 40), ("mixed", 3000, 30)]},
                 tracing_twin=True,
@@ -40,17 +40,17 @@ PROPS = {
                      "the two-service root pools; every case is also run with trace logging on. Non-trivial = "
                      "distinct (table, request, outcome) whose outcome is not a plain 404 (a route ran, or "
                      "405/415/406 was chosen)."),
-    "C03": dict(modes={"quick": [("path", "quick"), ("roots", "quick"), ("order3", "quick"), ("roots4", "quick")],
-                       "thorough": [("path", "thorough"), ("roots", "thorough"), ("order3", "quick"), ("roots4", "quick")]},
-                plan=dict(perms=3, slash=False, entries=["D"]),
+    "C03": dict(modes={"quick": [("path", "quick"), ("roots", "quick"), ("order3", "quick"), ("roots4", "quick"), ("media", "quick")],
+                       "thorough": [("path", "thorough"), ("roots", "thorough"), ("order3", "quick"), ("roots4", "quick"), ("media", "quick")]},
+                plan=dict(perms=3, slash=False, entries=["D"], conc=8),
                 random={"quick": [("mixed", 300, 20)], "thorough": [("mixed", 4000, 30)]},
                 counter="dominance",
                 rule="every table is built in 4 registration orders (given, reversed, 2 seeded shuffles) per router as "
                      "separate real containers; outcomes are compared across orders and judged against dominance. "
                      "Non-trivial = observations in which >= 2 fully eligible routes (or >= 2 claiming services) "
                      "competed, counted by the trace spec."),
-    "C04": dict(modes={"quick": [("path", "quick")], "thorough": [("path", "thorough")]},
-                plan=dict(perms=0, slash=True, entries=["D"]),
+    "C04": dict(modes={"quick": [("path", "quick"), ("regexpos", "quick")], "thorough": [("path", "thorough"), ("regexpos", "quick")]},
+                plan=dict(perms=0, slash=True, entries=["D"], conc=8),
                 random={"quick": [("mixed", 400, 24)], "thorough": [("mixed", 5000, 30)]},
                 counter="params",
                 rule="cases as for C01; Request.PathParameters() is read inside the invoked handler. Non-trivial = "
@@ -184,7 +184,23 @@ def sig_c03_equal_score_roots(ev, mis, table):
     return any(len(a) == len(b) and crossing(a, b) and curly_score(a) == curly_score(b) for a, b in pairs)
 
 
-SIGNATURES = {"c18-crossing-templates": sig_c18_crossing, "c17-nested-roots-options": sig_c17_nested,
+def sig_c04_jsr_groups(ev, mis, table):
+    """RouterJSR311; the invoked route's full template has a regex variable whose expression contains a
+    capturing group, followed by another variable (whose value is taken from the wrong group)"""
+    if mis["clause"] not in ("C04.exact", "C04.roundtrip") or mis["variant"][0] != "jsr311":
+        return False
+    o = ev["outs"][mis["out"] - 1]
+    if o["k"] != "route":
+        return False
+    ts = toks(o["selp"])
+    for i, t in enumerate(ts):
+        if t.startswith("{") and ":" in t and "(" in t.split(":", 1)[1]:
+            if any(is_var(x) for x in ts[i + 1:]):
+                return True
+    return False
+
+
+SIGNATURES = {"c04-jsr311-nested-capture-groups": sig_c04_jsr_groups, "c18-crossing-templates": sig_c18_crossing, "c17-nested-roots-options": sig_c17_nested,
               "c03-equal-score-crossing-roots": sig_c03_equal_score_roots}
 
 
